@@ -135,7 +135,9 @@ def temporal_text(kind, key, variant=0):
     return sign + "P" + ("%dY" % y if y else "") + ("%dM" % mo if mo else "")
 
 INPUT_NAMES = ["x", "y", "Age", "Order size", "Customer kind", "Risk", "total amount due", "k9", "Region code", "Delivery",
-               "Weight kg", "Member level", "score_1", "w"]
+               "Weight kg", "Member level", "score_1", "w",
+               # names whose first word is spelled like a hit policy marker (the corner cell of a drawing holds such a marker)
+               "P value", "A level", "F score", "R squared", "U turn", "C section", "O ring"]
 OUTPUT_NAMES = ["Discount", "Priority level", "Rating", "Fee", "Result code", "Hazard class", "z", "Approval status", "rate_2"]
 TITLES = ["Discount", "Order options", "Sell options", "Applicant risk rating", "Routing", "Eligibility of the applicant", "T1"]
 ANNOTATION_NAMES = ["Description", "Reference", "Note", "Why so", "Remarks (internal)"]
